@@ -60,7 +60,11 @@ class WeightSaveCallback(Callback):
         if (self.check_interval > 0 and batch_idx > 0) and (
             (batch_idx - 1) % self.check_interval == 0
         ):
-            if trainer.logged_metrics["train/loss"] < self.current_loss:
+            # (nothing is logged yet at the first batch of a fit resumed from a checkpoint)
+            if (
+                "train/loss" in trainer.logged_metrics
+                and trainer.logged_metrics["train/loss"] < self.current_loss
+            ):
                 self.current_loss = trainer.logged_metrics["train/loss"]
                 torch.save(
                     self.model.state_dict(),
